@@ -68,7 +68,7 @@ type c17Tuning struct {
 	W string `long:"congestion-window-size-in-segments" description:"DESCW"`
 }
 type c17Internal struct {
-	T c17Tuning `group:"Tuning"`
+	T c17Tuning `group:"Tuning" namespace:"tuning"`
 	I bool      `long:"int" description:"DESCI"`
 }
 
@@ -76,7 +76,7 @@ type c17Internal struct {
 func H_C17_nested(v *V) {
 	type decl struct {
 		V   bool        `short:"v" long:"verbose" description:"DESCV"`
-		Int c17Internal `group:"Internal"`
+		Int c17Internal `group:"Internal" namespace:"internal"`
 	}
 	d := &decl{}
 	p := NewNamedParser("prog", None)
@@ -88,7 +88,7 @@ func H_C17_nested(v *V) {
 		p.Group.Find("Tuning").Hidden = true
 	}
 	if v.Choice(2) == 1 {
-		p.FindOptionByLongName("int").Hidden = true
+		p.FindOptionByLongName("internal.int").Hidden = true
 	}
 	v.TermWidth(v.Shape("width"))
 	p.ParseArgs([]string{})
